@@ -84,6 +84,51 @@ class Gen:
             return mk_list("NodeList", [self.gen("Node", depth) for _ in range(n)])
         if sort == "St":
             return C["St"](self.gen("Str"), r.random() < 0.5, r.random() < 0.5)
+        if sort == "Child":
+            k = r.choice(["CNone", "CInt", "CFloat", "CBoolC", "CNode", "CNode", "CNode", "CSeq", "CSeq", "CBad"] if depth > 0 else ["CNone", "CInt", "CBoolC", "CNode", "CNode", "CBad"])
+            if k == "CNone":
+                return C["CNone"]()
+            if k == "CInt":
+                return C["CInt"](r.choice([0, 1, -2, 10]))
+            if k == "CFloat":
+                return C["CFloat"](r.choice([0, 1, 2]))
+            if k == "CBoolC":
+                return C["CBoolC"](r.random() < 0.5)
+            if k == "CNode":
+                return C["CNode"](self.gen("Node", max(0, depth - 1)))
+            if k == "CBad":
+                return C["CBad"](r.choice([1, 2]))
+            kind = r.choice([0, 1, 2])
+            if kind == 2:   # a TagList argument holds stored nodes only
+                return C["CSeq"](2, mk_list("ChildList", [C["CNode"](self.gen("Node", 0)) for _ in range(r.choice([0, 1, 2]))]))
+            return C["CSeq"](kind, self.gen("ChildList", depth - 1))
+        if sort == "ChildList":
+            return mk_list("ChildList", [self.gen("Child", depth) for _ in range(r.choice([0, 1, 1, 2, 3]))])
+        if sort == "AttrArg":
+            k = r.choice(["VNone", "VBool", "VStr", "VStr", "VHtml", "VInt", "VFloat", "VOther"])
+            return {"VNone": lambda: C["VNone"](), "VBool": lambda: C["VBool"](r.random() < 0.5), "VStr": lambda: C["VStr"](self.gen("Str")),
+                    "VHtml": lambda: C["VHtml"](self.gen("Str")), "VInt": lambda: C["VInt"](r.choice([0, 3, -1])), "VFloat": lambda: C["VFloat"](r.choice([0, 1])),
+                    "VOther": lambda: C["VOther"](1)}[k]()
+        if sort == "ArgDict":
+            keys = r.sample(["class", "class_", "id", "data_x", "x__", "style", "a-b", "a_b"], r.choice([0, 1, 2, 3]))
+            return mk_list("ArgDict", [(k, self.gen("AttrArg")) for k in keys])
+        if sort == "ArgDicts":
+            return mk_list("ArgDicts", [self.gen("ArgDict") for _ in range(r.choice([0, 1, 2]))])
+        if sort == "OptAV":
+            return C["NoAV"]() if r.random() < 0.3 else C["SomeAV"](self.gen("AttrVal"))
+        if sort == "TagArg":
+            return C["TDict"](self.gen("ArgDict")) if r.random() < 0.35 else C["TChild"](self.gen("Child", depth))
+        if sort == "TagArgs":
+            return mk_list("TagArgs", [self.gen("TagArg", depth) for _ in range(r.choice([0, 1, 2, 3]))])
+        if sort == "StrList":
+            return mk_list("StrList", [r.choice(["a", "b", "c-d", "x"]) for _ in range(r.choice([0, 1, 2]))])
+        if sort == "CssVal":
+            k = r.choice(["CssNone", "CssStr", "CssStr", "CssInt", "CssList"])
+            return {"CssNone": lambda: C["CssNone"](), "CssStr": lambda: C["CssStr"](r.choice(["12px", "red", "", "a b"])), "CssInt": lambda: C["CssInt"](r.choice([0, 5])),
+                    "CssList": lambda: C["CssList"](self.gen("StrList"))}[k]()
+        if sort == "CssArgs":
+            keys = r.sample(["font_size", "backgroundColor", "color", "margin_top", "X", "a_B"], r.choice([0, 1, 2, 3]))
+            return mk_list("CssArgs", [(k, self.gen("CssVal")) for k in keys])
         hook = GEN_HOOKS.get(sort)
         if hook:
             return hook(self, depth)
@@ -139,21 +184,42 @@ def eval_spec(expr, env):
 
 def call_job(src, c, argvals, snapshot=False, expansions=None):
     """job for realrun calling the contract's function with the given spec values"""
-    fn = src.find(c.name)
+    fn = src.find(c.body_name(src))
     a = fn.args
     posnames = [x.arg for x in a.posonlyargs + a.args]
     kwonly = [x.arg for x in a.kwonlyargs]
-    args, kwargs = [], {}
+    args, kwargs, sorts = [], {}, []
+    star = starkw = None
     for p, s in c.params:
         v = to_json(argvals[p])
-        if p in kwonly:
+        if a.kwarg is not None and p == a.kwarg.arg:
+            starkw = v
+        elif p in kwonly:
             kwargs[p] = v
         else:
+            if a.vararg is not None and p == a.vararg.arg:
+                star = len(args)
             args.append(v)
-    job = {"kind": "call", "fn": c.name, "args": args, "kwargs": kwargs, "snapshot": snapshot}
+            sorts.append(s)
+    job = {"kind": "call", "fn": c.body_name(src), "args": args, "kwargs": kwargs, "snapshot": snapshot, "arg_sorts": sorts,
+           "ret_sort": c.returns, "star": star, "starkw": starkw}
     if expansions:
         job["expansions"] = expansions
     return job
+
+
+def real_args_after(src, c, r):
+    """map the snapshot of the real call's arguments after the call back to parameter names"""
+    fn = src.find(c.body_name(src))
+    kwonly = [x.arg for x in fn.args.kwonlyargs]
+    out, i = {}, 0
+    for p, s in c.params:
+        if p in kwonly or (fn.args.kwarg is not None and p == fn.args.kwarg.arg):
+            continue
+        if i < len(r["args_after"]):
+            out[p] = r["args_after"][i]
+        i += 1
+    return out
 
 
 def expected_outcome(c, argvals):
@@ -198,14 +264,22 @@ def differential(src, c, n=200, seed=0, atoms=None, repo=None, depth=2):
                 cases.append(vals)
         except RecursionError:
             continue
-    jobs = [call_job(src, c, v) for v in cases]
+    jobs = [call_job(src, c, v, snapshot=bool(c.modifies)) for v in cases]
     res = run_real(jobs, repo)
     mism = []
+    pnames = [p for p, _ in c.params]
     for v, r in zip(cases, res):
         if "harness_error" in r:
             mism.append({"input": {k: to_json(x) for k, x in v.items()}, "harness_error": r["harness_error"]})
             continue
         kind, exp = expected_outcome(c, v)
+        if c.modifies and "args_after" in r:
+            after = real_args_after(src, c, r)
+            for m in c.modifies:
+                if kind == "raise" and m in c.unchanged_on_raise or kind == "return" and m in c.post:
+                    want = v[m] if kind == "raise" else eval_spec(c.post[m], dict(v))
+                    if m in after and canon(after[m], c.sort_of(m)) != canon(to_json(want), c.sort_of(m)) and r.get("exc") in (None, exp if kind == "raise" else None):
+                        mism.append({"input": {k: to_json(x) for k, x in v.items()}, "expected": {"state of " + m: to_json(want)}, "observed": {"state of " + m: after[m], "outcome": {k2: r[k2] for k2 in r if k2 in ("ok", "exc")}}})
         if kind == "raise":
             if r.get("exc") != exp:
                 mism.append({"input": {k: to_json(x) for k, x in v.items()}, "expected": f"raises {exp}", "observed": r})
